@@ -116,7 +116,8 @@ def n_final(reaction_name: str) -> int:
 
 
 QUICK_REACTIONS = ["jpsi_gamma_pi0_pi0", "jpsi_pi0_pip_pim", "etac_lambda_lambdabar", "jpsi_p_pbar", "lambdac_p_k_pi", "d1_k_k_k0", "jpsi_sigmabar_sigma",
-                   "jpsi_k0_sigma_pbar_N", "jpsi_kk_pipi", "d0_k_3pi_cascade", "jpsi_k0_sigma_pbar_partial", "jpsi_gamma_pi0_pi0_omega"]
+                   "jpsi_k0_sigma_pbar_N", "jpsi_kk_pipi", "d0_k_3pi_cascade", "jpsi_k0_sigma_pbar_partial", "jpsi_gamma_pi0_pi0_omega",
+                   "chic0_omega_omega", "chic2_gamma_gamma"]  # identical final-state particles WITH spin (different nodes / one node)
 
 
 THOROUGH_EXTRA = ["jpsi_gamma_pi0_pi0_f2", "d0_k_pi_pi0", "jpsi_gamma_p_pbar", "jpsi_full_p_pbar"]
